@@ -46,7 +46,9 @@ class Gen(object):
     def sus(self, ind):
         k = self.nk()
         if self.mode == "running":
-            self.emit(ind, "P(%d)" % k)
+            # CP reaches the probe through a C trampoline (functools.partial): the calling frame then
+            # has no saved stack pointer, unlike for a direct Python-to-Python call
+            self.emit(ind, "%s(%d)" % ("CP" if self.rng.random() < 0.35 else "P", k))
             return
         if self.kind == "coro":
             self.emit(ind, "await sus(%d)" % k)
@@ -271,6 +273,8 @@ class Gen(object):
             tsrc, shape, _cls = self.target()
             ctor = "A" if is_async else "S"
             call = "%s(%d)" % (ctor, k) if shape is None else "%s(%d, %r)" % (ctor, k, shape)
+            if tsrc is None and self.mode == "running" and rng.random() < 0.5:
+                call = "%s(%d, None, True)" % (ctor, k)   # result dropped -> __del__ probe
             items.append((call, tsrc))
         kw = "async with" if is_async else "with"
 
